@@ -1,4 +1,4 @@
-import MgProof.C14.CtxInv
+import MgProof.C14.Progress
 /-!
 # C14 — property theorems
 
@@ -182,6 +182,48 @@ theorem exit_makes_run_return {cfg : Cfg} (ok : CfgOk cfg) (hx : ExitOk cfg) {s 
     · exact absurd (exit_never_lost ok hx hr he h) (terminal_no_wake ht hT)
   have hg : gone (s.pc cfg.lt) = true := by rw [hd]; rfl
   exact ⟨hd, hc.cnt.1 hg, hc.cnt.2.2.1 (Or.inr hd), hc.regE hg⟩
+
+/-- **Exit, liveness with an explicit bound.** Once an exit store has happened and the other threads
+have finished their calls, the loop thread is never stuck and returns from `muggle_evloop_run`
+within `mu` of its own steps (`mu` = a small function of where it stands, the eventfd entries still
+to dispatch and the length of the hand-over queue): every step it takes is enabled and strictly
+decreases the variant. The only fairness needed is that the loop thread gets to run. -/
+theorem exit_returns_in_bounded_steps {cfg : Cfg} (ok : CfgOk cfg) (hx : ExitOk cfg) :
+    ∀ (m : Nat) (s : St), Reach (step cfg) (mkInit cfg) s → OthersDone cfg s → s.toExit ≠ 0 →
+      mu cfg s ≤ m →
+      ∃ k, k ≤ m ∧ Reach (step cfg) (mkInit cfg) (solo cfg k s) ∧ (solo cfg k s).pc cfg.lt = .done := by
+  intro m
+  induction m with
+  | zero =>
+    intro s hr hod he hm
+    refine ⟨0, Nat.le_refl _, hr, ?_⟩
+    by_cases hd : s.pc cfg.lt = .done
+    · exact hd
+    · obtain ⟨ht, hs, _⟩ := reach_inv ok hr
+      have := (solo_decreases ht hs hx hod he hd ok.ltn).2
+      omega
+  | succ m ih =>
+    intro s hr hod he hm
+    by_cases hd : s.pc cfg.lt = .done
+    · exact ⟨0, Nat.zero_le _, hr, hd⟩
+    · obtain ⟨ht, hs, _⟩ := reach_inv ok hr
+      obtain ⟨hen, hlt⟩ := solo_decreases ht hs hx hod he hd ok.ltn
+      have hr' := reach_nxt hr hen
+      have hod' : OthersDone cfg (nxt cfg s cfg.lt) := by
+        intro u hu
+        rw [pc_other_step u hu]
+        exact hod u hu
+      obtain ⟨k, hk, hrk, hdk⟩ := ih (nxt cfg s cfg.lt) hr' hod' (toExit_step he) (by omega)
+      exact ⟨k + 1, by omega, hrk, hdk⟩
+
+/-- whenever `run()` has returned, the clear phase and the exit callback have run exactly once and
+nothing is registered (used with `exit_returns_in_bounded_steps`) -/
+theorem returned_after_clear_and_exit {cfg : Cfg} (ok : CfgOk cfg) {s : St}
+    (hr : Reach (step cfg) (mkInit cfg) s) (hd : s.pc cfg.lt = .done) :
+    s.clears = 1 ∧ s.exits = 1 ∧ s.reg = [] := by
+  obtain ⟨_, _, hc⟩ := reach_inv ok hr
+  have hg : gone (s.pc cfg.lt) = true := by rw [hd]; rfl
+  exact ⟨hc.cnt.1 hg, hc.cnt.2.2.1 (Or.inr hd), hc.regE hg⟩
 
 /-- a completed exit call implies the exit store has happened (links the ghost counter of
 completed `muggle_evloop_exit` calls to `to_exit`) -/
